@@ -37,3 +37,56 @@ func VerifVisitArgs(a *Args, f func(key, value []byte, noValue bool)) {
 }
 
 func VerifAppendHeaderLine(dst, key, value []byte) []byte { return appendHeaderLine(dst, key, value) }
+
+// VerifKV is a key/value pair of a header dump.
+type VerifKV struct{ K, V []byte }
+
+// VerifRespHeaderState is a read-only dump of the fields ResponseHeader.AppendBytes reads.
+type VerifRespHeaderState struct {
+	ContentType, ContentEncoding, Server, ContentLengthBytes []byte
+	ContentLength                                             int
+	NoDefaultDate, NoDefaultContentType, ConnectionClose      bool
+	H, Cookies                                                []VerifKV
+	Trailer                                                   [][]byte
+}
+
+func verifKVs(a []argsKV) []VerifKV {
+	r := make([]VerifKV, 0, len(a))
+	for i := range a {
+		r = append(r, VerifKV{append([]byte(nil), a[i].key...), append([]byte(nil), a[i].value...)})
+	}
+	return r
+}
+
+func VerifRespHeaderDump(h *ResponseHeader) VerifRespHeaderState {
+	s := VerifRespHeaderState{
+		ContentType: h.contentType, ContentEncoding: h.contentEncoding, Server: h.server,
+		ContentLengthBytes: h.contentLengthBytes, ContentLength: h.contentLength,
+		NoDefaultDate: h.noDefaultDate, NoDefaultContentType: h.noDefaultContentType, ConnectionClose: h.connectionClose,
+		H: verifKVs(h.h), Cookies: verifKVs(h.cookies),
+	}
+	for _, kv := range h.Trailer().GetTrailers() {
+		s.Trailer = append(s.Trailer, append([]byte(nil), kv.key...))
+	}
+	return s
+}
+
+// VerifReqHeaderState is a read-only dump of the fields RequestHeader.AppendBytes reads.
+type VerifReqHeaderState struct {
+	Method, RequestURI, UserAgent, Host, ContentType, ContentLengthBytes []byte
+	NoDefaultContentType, ConnectionClose                                 bool
+	H, Cookies                                                            []VerifKV
+	Trailer                                                               [][]byte
+}
+
+func VerifReqHeaderDump(h *RequestHeader) VerifReqHeaderState {
+	s := VerifReqHeaderState{
+		Method: h.method, RequestURI: h.requestURI, UserAgent: h.userAgent, Host: h.host, ContentType: h.contentType,
+		ContentLengthBytes: h.contentLengthBytes, NoDefaultContentType: h.noDefaultContentType, ConnectionClose: h.connectionClose,
+		H: verifKVs(h.h), Cookies: verifKVs(h.cookies),
+	}
+	for _, kv := range h.Trailer().GetTrailers() {
+		s.Trailer = append(s.Trailer, append([]byte(nil), kv.key...))
+	}
+	return s
+}
